@@ -216,6 +216,7 @@ pub fn op_history(case: &J) -> J {
   let scs = case.get("scopes").and_then(|v| v.as_array()).unwrap_or(&empty);
   let steps = case.get("steps").and_then(|v| v.as_array()).unwrap_or(&empty);
   let mut evaluators: Vec<Option<Evaluator>> = vec![];
+  let mut nodes: Vec<Option<dmntk_feel::AstNode>> = vec![];
   let mut prep = vec![];
   for e in evs {
     let pscope = match vj::to_scope(e.get("scope")) {
@@ -234,16 +235,19 @@ pub fn op_history(case: &J) -> J {
         match dmntk_feel_evaluator::prepare(&node) {
           Ok(ev) => {
             evaluators.push(Some(ev));
+            nodes.push(Some(node));
             prep.push(json!("ok"));
           }
           Err(er) => {
             evaluators.push(None);
+            nodes.push(None);
             prep.push(json!({"berr": er.to_string()}));
           }
         }
       }
       Err(er) => {
         evaluators.push(None);
+        nodes.push(None);
         prep.push(json!({ "perr": er }));
       }
     }
@@ -280,6 +284,15 @@ pub fn op_history(case: &J) -> J {
       }
       match first.get(&(e, sidx)) {
         None => {
+          // the same evaluation made ALONE: an evaluator prepared for this one call over a fresh copy of the scope
+          if let (Some(node), Ok(fresh_scope)) = (&nodes[e], vj::to_scope(Some(&scs[sidx]))) {
+            if let Ok(fresh) = dmntk_feel_evaluator::prepare(node) {
+              let alone = vj::from_value(&fresh(&fresh_scope));
+              if alone != v {
+                violations.push(json!({"kind": "differs_from_evaluation_alone", "step": k, "e": e, "s": sidx, "alone": alone, "after_other_evaluations": v}));
+              }
+            }
+          }
           first.insert((e, sidx), v);
         }
         Some(f) => {
